@@ -125,7 +125,9 @@ class FlowSimulator:
 
     def _update_simulator_time(self, dt: float) -> None:
         """Updates simulator time."""
-        self.time += dt
+        # keep the clock in double precision whatever the type of dt (a numpy
+        # single-precision dt would otherwise demote it to float32 under NumPy 2)
+        self.time += float(dt)
 
     def time_step(self, dt: float, **kwargs) -> None:
         """Final simulator time step"""
